@@ -162,6 +162,21 @@ func (o *oracleCtx) checkState(step int, ob Obs, res string) *SImage {
 		}
 	}
 
+	// C11: the independent decoding of the bytes is what the handle holds, slot by slot
+	if len(ob.Rds) == len(img.Descs)*DescSize && !o.c.Hostile {
+		for i, d := range img.Descs {
+			dn := d
+			if dn.UsedByte != 0 {
+				dn.UsedByte = 1 // any non-zero "used" byte reads as true
+			}
+			if !bytes.Equal(EncodeDesc(dn), ob.Rds[i*DescSize:(i+1)*DescSize]) {
+				o.add("C11", step, class, "slot %d of the file, decoded independently, is not the descriptor the handle holds (first difference at byte %d of the descriptor)", i,
+					firstDiff(EncodeDesc(dn), ob.Rds[i*DescSize:(i+1)*DescSize]))
+				break
+			}
+		}
+	}
+
 	// C02: invariants of the abstract image
 	ids := map[uint32]bool{}
 	unused, prim := int64(0), 0
@@ -279,6 +294,9 @@ func (o *oracleCtx) checkStep(step int, op Op, pre, post Obs, preImg, postImg *S
 	}
 	o.tick("transition")
 	class := excusedResult(post.Res)
+	if op.Kind == OpDelete {
+		o.checkDeleteSelection(step, op, post, preImg, postImg)
+	}
 
 	if post.Res != "Ok" {
 		// C02: a rejected operation changes nothing
@@ -676,4 +694,52 @@ func OracleHistory(c *Case, dir string, counts map[string]int) []Finding {
 		preObs, preImg = st.Obs, postImg
 	}
 	return o.out
+}
+
+// checkDeleteSelection: C13/C02 - a delete removes exactly the objects its selector picks out
+// of the image as it was (recomputed with the independent selector specification), and reports
+// "not found" / the selector's own error exactly when that set is empty / undefined.
+func (o *oracleCtx) checkDeleteSelection(step int, op Op, post Obs, preImg, postImg *SImage) {
+	o.tick("delete-selection")
+	var want []int
+	selErr := ""
+	for i, d := range preImg.Descs {
+		if !d.Used {
+			continue
+		}
+		m, e := SpecMatch(op.Sel, d)
+		if e != "" {
+			selErr = e
+			break
+		}
+		if m {
+			want = append(want, i)
+		}
+	}
+	var gone []int
+	for i, d := range preImg.Descs {
+		if d.Used && (i >= len(postImg.Descs) || !postImg.Descs[i].Used) {
+			gone = append(gone, i)
+		}
+	}
+	desc := op.Sel.Coq()
+	both := func(f string, a ...any) {
+		for _, p := range []string{"C13", "C02"} {
+			o.add(p, step, "", f, a...)
+		}
+	}
+	switch {
+	case selErr != "":
+		if post.Res == "Ok" || post.Res == "ENotFound" {
+			both("delete by %s answered %s, the selector reports %s", desc, post.Res, selErr)
+		}
+	case len(want) == 0:
+		if post.Res == "Ok" {
+			both("delete by %s succeeded (slots %v removed) although no object matches", desc, gone)
+		}
+	case post.Res == "ENotFound":
+		both("delete by %s answered not-found although slots %v match", desc, want)
+	case post.Res == "Ok" && fmt.Sprint(gone) != fmt.Sprint(want):
+		both("delete by %s removed slots %v, the selector picks slots %v", desc, gone, want)
+	}
 }
